@@ -391,6 +391,11 @@ pub fn c01_bytes(f: &[u8], label: &str, with_zstd: bool) -> CaseOut {
     let mut out = CaseOut::default();
     if f.len() <= 6000 && (f.len() > 3 || with_zstd) {
         if let Some(rq) = scan_request(f) {
+            // the same file through the model of the WHOLE library (concrete stream functions, no
+            // recorded answers): same expected answer as the tape-driven `scan` request
+            if f.len() <= 3000 {
+                out.requests.push((format!("library {}", hex(f)), rq.1.clone()));
+            }
             out.requests.push(rq);
         }
     }
